@@ -47,7 +47,8 @@ Inductive backend := BkOverwrite | BkKeep.
 
 (* Which wrappers sit between the SyncManager and the raw store:
    SkAppend = participant (chainstore.go newChainStore: callback(append(scheme(discrepancy(base)))));
-   SkFollow = StartFollowChain (callback(scheme(base)): there is NO appendStore on this path). *)
+   SkFollow = callback(scheme(base)), what StartFollowChain built before it was given the
+   appendStore too; which of the two it builds now is read from its source (Gen/Follow.v). *)
 Inductive stack := SkAppend | SkFollow.
 
 (* raw store: association list, newest binding first *)
@@ -320,8 +321,12 @@ Record follow_src := mkFsrc {
   src_err_chan_is_made : bool;        (* errChan := make(chan error, ..) and not a nil var *)
   src_failed_sync_is_reported : bool; (* the goroutine sends on errChan when Sync fails *)
   src_retry_branch_continues : bool;  (* case <-errChan: ... continue *)
-  src_hash_pinned_before_store : bool (* bytes.Equal(info.Hash(), hash) precedes createDBStore/Put *)
+  src_hash_pinned_before_store : bool; (* bytes.Equal(info.Hash(), hash) precedes createDBStore/Put *)
+  src_follow_has_append_store : bool  (* NewCallbackStore(NewAppendStore(NewSchemeStore(store))) *)
 }.
+
+Definition follow_stack (s : follow_src) : stack :=
+  if src_follow_has_append_store s then SkAppend else SkFollow.
 
 Definition retry_live (s : follow_src) : bool :=
   src_err_chan_is_made s && src_failed_sync_is_reported s && src_retry_branch_continues s.
@@ -338,16 +343,16 @@ Section FOLLOW.
 
   (* the retry loop; [live] = the retry branch can run (false reproduces the nil errChan: a failed
      Sync is never observed and the call just waits). One element of [attempts] per Sync call. *)
-  Fixpoint follow_loop (vfy : beacon -> bool) (live keep : bool) (targ upTo : Z) (fuel : nat)
-           (st : store) (attempts : list (list peer)) : follow_res * store * list beacon :=
+  Fixpoint follow_loop (sk : stack) (vfy : beacon -> bool) (live keep : bool) (targ upTo : Z)
+           (fuel : nat) (st : store) (attempts : list (list peer)) : follow_res * store * list beacon :=
     match fuel, attempts with
     | S f, a :: rest =>
-        let o := sync_loop vfy chained bk SkFollow 0 upTo st a in
+        let o := sync_loop vfy chained bk sk 0 upTo st a in
         if done_fired keep targ (sy_ws o) then (FwDone, sy_st o, sy_ws o)
         else match sy_r o with
              | SyncErr _ =>
                  if live then
-                   let '(r2, st2, ws2) := follow_loop vfy live keep targ upTo f (sy_st o) rest in
+                   let '(r2, st2, ws2) := follow_loop sk vfy live keep targ upTo f (sy_st o) rest in
                    (r2, st2, sy_ws o ++ ws2)
                  else (FwBlocked, sy_st o, sy_ws o)
              | _ => (FwBlocked, sy_st o, sy_ws o)   (* nil result is not reported; blocked Sync *)
@@ -366,14 +371,14 @@ Section FOLLOW.
         then mkFw (FwRefused FeHash) db []
         else if negb (i_id_ok i) then mkFw (FwRefused FeBeaconId) db []
         else
-          (* createDBStore, Put(genesis), NewSchemeStore *)
+          (* createDBStore, Put(genesis), NewSchemeStore, NewAppendStore *)
           let base := raw_put bk (match db with Some d => d | None => [] end) (i_genesis i) in
           match open_store base with
           | None => mkFw (FwRefused FeNoInfo) (Some base) []     (* unreachable: base is not empty *)
           | Some st =>
               let keep := upTo =? 0 in
               let targ := if negb (upTo =? 0) && (upTo <? cur) then upTo else cur in
-              let '(r, st', ws) := follow_loop (vfy_of i) (retry_live src) keep targ upTo fuel st attempts in
+              let '(r, st', ws) := follow_loop (follow_stack src) (vfy_of i) (retry_live src) keep targ upTo fuel st attempts in
               mkFw r (Some (s_base st')) ws
           end
     end.
